@@ -6,6 +6,10 @@
 //!   sk    suspension script by module position: the lookup of the i-th M= module in run r suspends
 //!         sk[(i + r) mod len] times (Pending / parked token / sleep) — the case controls which module is slow
 //! The first rendering of every case is the synchronous one (plain supplier, no suspension, executor A).
+//!   deep  <thread index>:<frames>:<ra>+<ra>+...[;...]  the stack of that T= thread is replaced by a chain of <frames>
+//!         two-word frames [saved frame pointer -> next frame, return address (cycling through the list)], ended by
+//!         [0, 0]: walkable by frame pointer and by `.cfa: sp 2w + .ra: .cfa w - ^ fp: .cfa 2w - ^` alike (the thread's
+//!         sp and fp registers must point at its stack base).  Keeps case lines short for stacks of 10^4 frames.
 //!   evil  contents of the "evil json" file handed to ProcessorOptions::evil_json (unstable_all only)
 //! executors:
 //!   A  one future polled to completion with a no-op waker; a delayed lookup answers Pending k times
@@ -346,7 +350,24 @@ fn run(line: &str) -> String {
         let mut it = rest.split_ascii_whitespace();
         return run_certs(it.next().expect("certs"), it.next().expect("mods"));
     }
-    let spec = parse_spec(line.split_ascii_whitespace());
+    let mut spec = parse_spec(line.split_ascii_whitespace());
+    if let Some(d) = spec.extra.get("deep").cloned() {
+        let w: usize = if matches!(spec.cpu.as_str(), "amd64" | "arm64" | "arm64old" | "mips64" | "ppc64" | "sparc") { 8 } else { 4 };
+        for e in d.split(';').filter(|x| !x.is_empty()) {
+            let f: Vec<&str> = e.split(':').collect();
+            let (ti, n) = (num(f[0]) as usize, num(f[1]) as usize);
+            let ras: Vec<u64> = f[2].split('+').map(num).collect();
+            let t = &mut spec.threads[ti];
+            let mut st = Vec::with_capacity((n + 1) * 2 * w);
+            for k in 0..n {
+                let next = t.stack_base + ((k + 1) * 2 * w) as u64;
+                st.extend_from_slice(&next.to_le_bytes()[..w]);
+                st.extend_from_slice(&ras[k % ras.len()].to_le_bytes()[..w]);
+            }
+            st.extend_from_slice(&vec![0u8; 2 * w]);
+            t.stack = st;
+        }
+    }
     let dl: Vec<u32> = spec.extra.get("dl").map(|s| s.split(',').filter(|x| !x.is_empty()).map(|x| num(x) as u32).collect()).unwrap_or_default();
     let sk: Vec<u32> = spec.extra.get("sk").map(|s| s.split(',').filter(|x| !x.is_empty()).map(|x| num(x) as u32).collect()).unwrap_or_default();
     let mod_index: Arc<HashMap<String, usize>> = Arc::new(spec.modules.iter().enumerate().map(|(i, m)| (m.name.clone(), i)).collect());
